@@ -115,6 +115,26 @@ def stepLine (st : DS) (line : String) : DS × String :=
       | .bad why => (st, "BAD " ++ why)
       | _ => (st, "good")
     | none => (st, "bad-dump")
+  | ["monsite", "x86rel", at_, tgt, bytes] =>
+    -- a single branch instruction at offset `at_` whose label is at `tgt` (witness runs on buffers too large to dump)
+    match bv64? at_, bv64? tgt, hexToBytes? bytes with
+    | some a, some t, some buf =>
+      match x86BranchField buf 0 with
+      | some (fp, n) =>
+        match loadLE buf fp n with
+        | some v =>
+          if fp + n = buf.length ∧ a + BitVec.ofNat 64 buf.length + sextN n v == t then (st, "good")
+          else (st, "BAD direct-branch-wrong-target")
+        | none => (st, "BAD branch-out-of-buffer")
+      | none => (st, "BAD not-a-branch-opcode")
+    | _, _, _ => (st, "bad-op")
+  | ["monsite", "a64", k, at_, tgt, bytes] =>
+    match parseA k, bv64? at_, bv64? tgt, hexToBytes? bytes with
+    | some k, some a, some t, some buf =>
+      match loadLE buf 0 4 with
+      | some v => if a + decode32 k.kind.fmt (BitVec.ofNat 32 v) == t then (st, "good") else (st, "BAD direct-branch-wrong-target")
+      | none => (st, "BAD branch-out-of-buffer")
+    | _, _, _, _ => (st, "bad-op")
   | ("relocate" :: _) =>
     match parseOp ws with
     | some (.relocate b) =>
